@@ -10,35 +10,37 @@ def errName : Err → String
   | .duplicate => "err:DuplicateMember"
   | .absent => "err:absent"
 
-/-- one accessor / mutator; returns the new data and the printed answer -/
-def stepOp (data : List Nat) (op : String) : List Nat × String :=
+def decOp (op : String) : Option Op :=
   match op.splitOn ":" with
-  | ["len"] => (data, toString data.length)
-  | ["iter"] => (data, encNats data)
-  | ["list"] => (data, encNats (sortedSet data))
-  | ["set"] => (data, encNats (sortedSet data))
-  | ["cstr"] => (data, encStr (compress data))
-  | ["rexp"] => (data, match parse (compress data) with
-      | .ok d => encNats d
-      | .error e => errName e)
-  | ["has", n] => (data, match decNat n with
-      | some k => if data.contains k then "T" else "F"
-      | none => "bad-op")
-  | ["app", n] => (match decNat n with
-      | some k => (match append data k with
-        | .ok d => (d, "ok")
-        | .error e => (data, errName e))
-      | none => (data, "bad-op"))
-  | ["rem", n] => (match decNat n with
-      | some k => (match remove data k with
-        | .ok d => (d, "ok")
-        | .error e => (data, errName e))
-      | none => (data, "bad-op"))
-  | _ => (data, "bad-op")
+  | ["len"] => some .len
+  | ["iter"] => some .iter
+  | ["list"] => some .list
+  | ["set"] => some .set
+  | ["cstr"] => some .cstr
+  | ["rexp"] => some .rexp
+  | ["has", n] => (decNat n).map .has
+  | ["app", n] => (decNat n).map .app
+  | ["rem", n] => (decNat n).map .rem
+  | _ => none
+
+def encAns : Ans → String
+  | .nat n => toString n
+  | .nats l => encNats l
+  | .str s => encStr s
+  | .bool b => if b then "T" else "F"
+  | .ok => "ok"
+  | .err e => errName e
+
+/-- one accessor / mutator (`Ccp.Range.stepOp`) on the wire; returns the new data and the
+printed answer -/
+def stepLine (data : List Nat) (op : String) : List Nat × String :=
+  match decOp op with
+  | some o => let r := stepOp data o; (r.1, encAns r.2)
+  | none => (data, "bad-op")
 
 def runOps : List Nat → List String → List String
   | _, [] => []
-  | d, op :: ops => let r := stepOp d op; r.2 :: runOps r.1 ops
+  | d, op :: ops => let r := stepLine d op; r.2 :: runOps r.1 ops
 
 /-- `range <text> <op> <op> …` -/
 def handle : List String → String
